@@ -8,6 +8,7 @@ from copy import copy
 from . import ConstraintsError, ErrorWithLocation
 from . import compiler
 from . import format_or
+from .compiler import clean_bit_string_value
 from .permitted_alphabet import NUMERIC_STRING
 from .permitted_alphabet import PRINTABLE_STRING
 from .permitted_alphabet import IA5_STRING
@@ -165,12 +166,27 @@ class Null(Type):
 
 class BitString(Type):
 
-    def __init__(self, name, minimum, maximum, has_extension_marker):
+    def __init__(self,
+                 name,
+                 minimum,
+                 maximum,
+                 has_extension_marker,
+                 has_named_bits=False):
         super(BitString, self).__init__(name)
         self.set_size_range(minimum, maximum, has_extension_marker)
+        self.has_named_bits = has_named_bits
 
     def encode(self, data):
         number_of_bits = data[1]
+
+        if self.has_named_bits:
+            # Trailing zero bits are not significant with named bits;
+            # they may be removed or added to satisfy the constraint
+            # (X.680 22.7).
+            number_of_bits = clean_bit_string_value(data, True)[1]
+
+            if self.has_lower_bound():
+                number_of_bits = max(number_of_bits, self.minimum)
 
         if not self.is_in_range(number_of_bits):
             raise ConstraintsError(
@@ -384,7 +400,8 @@ class Compiler(compiler.Compiler):
         elif type_name == 'BIT STRING':
             compiled = BitString(name,
                                  *self.get_size_range(type_descriptor,
-                                                      module_name))
+                                                      module_name),
+                                 has_named_bits=('named-bits' in type_descriptor))
         elif type_name == 'NumericString':
             compiled = NumericString(name,
                                      self.get_permitted_alphabet(type_descriptor),
